@@ -174,6 +174,52 @@ func (w *e3World) checkIdentity(id string, ident *idp.Identity) {
 	}
 }
 
+// expiredContextOp: get / has / create-identity with a context that is already done.
+func (w *e3World) expiredContextOp(op, i int, k *ks.Keystore, id string) {
+	r := w.r
+	ctx, cancel := context.WithCancel(w.ctx)
+	cancel()
+	r.Fault("expired-context")
+	switch {
+	case op <= 4:
+		key, err := k.GetKey(ctx, id)
+		r.Logf("get inst%d %s with an expired context err=%v", i, id, err != nil)
+		if pub, ok := w.model[id]; err == nil && key != nil {
+			if !ok {
+				r.Violate("C20:get-key-absent", "GetKey(%q) with an expired context returned a key for an id never created", id)
+			}
+			if !bytes.Equal(pubRaw(key), pub) {
+				r.Violate("C20:get-key-identical", "GetKey(%q) with an expired context returned a different key than the one created", id)
+			}
+		}
+	case op <= 8:
+		has, err := k.HasKey(ctx, id)
+		r.Logf("has inst%d %s with an expired context -> %v err=%v", i, id, has, err != nil)
+		if _, ok := w.model[id]; has && !ok {
+			r.Violate("C20:has-key-absent", "HasKey(%q) with an expired context reports an id never created as present", id)
+		}
+	default:
+		if _, ok := w.model[id]; !ok {
+			return // would (legitimately) create keys: bookkeeping is left to the ordinary operation
+		}
+		ident, err := idp.CreateIdentity(ctx, &idp.CreateIdentityOptions{Keystore: k, ID: id, Type: "orbitdb"})
+		r.Logf("identity %s on inst%d with an expired context err=%v", id, i, err != nil)
+		if err == nil {
+			if prev, ok := w.idents[id]; ok {
+				if d := identEq(prev, ident); d != "" {
+					r.Violate("C20:identity-stable", "identity for %q created with an expired context differs from the one created earlier in %s", id, d)
+				}
+			}
+			// the key named by the identity's id may be new to the model
+			if _, ok := w.model[ident.ID]; !ok {
+				if key, err := k.GetKey(w.ctx, ident.ID); err == nil {
+					w.model[ident.ID] = pubRaw(key)
+				}
+			}
+		}
+	}
+}
+
 // tapeRand replaces crypto/rand.Reader during a keystore run: key generation is the one consumer
 // of randomness in the library, and a violation that depends on the bytes of a key must replay.
 type tapeRand struct{ x *xoshiro }
@@ -213,6 +259,13 @@ func RunE3(r *Run) {
 		// ids are arbitrary strings: flat names, paths and URIs whose last component coincides
 		id := e3IDs[r.Choose("id", len(e3IDs))]
 		fault := faulty && r.Choose("fault?", 8) == 0
+		// another fault kind: the caller's context is already cancelled (or past its deadline). The call may
+		// fail; it must not change or replace anything
+		if faulty && !fault && r.Choose("expired-ctx?", 8) == 0 {
+			w.expiredContextOp(op, i, k, id)
+			w.checkAll("after a call with an expired context")
+			continue
+		}
 		switch op {
 		case 1, 2: // create (only ids that do not exist: a second create replaces the key by design)
 			if _, exists := w.model[id]; exists {
